@@ -23,6 +23,10 @@ PROFILES = {
                 quiesce=240.0, supvisors_failure_strategies=['CONTINUE', 'CONTINUE', 'RESYNC'],
                 p_trigger=0.5, trigger_states=['ELECTION', 'DISTRIBUTION', 'CONCILIATION', 'OPERATION'],
                 p_wait_exit=0.0, startsecs=[0, 1, 1, 2, 4], n_groups=[1, 2], n_programs=[1, 2, 3]),
+    'C07': dict(BASE, max_faults=6, min_faults=1, ops='none', child_kinds=SIMPLE_CHILDREN, quiesce=60.0,
+                fault_weights={'crash': 2, 'restart': 4, 'partition': 4, 'stall': 1, 'slow': 1, 'child_exit': 0.5},
+                p_auto_fence=0.5, inactivity_ticks=[2, 2, 3, 4, 5], p_heal=0.7, n_groups=[1, 2], n_programs=[1, 2, 3],
+                p_autostart=0.3),
     'C02': dict(BASE, max_faults=5, ops='fsm'),
     'C16': dict(BASE, max_faults=5, ops='all', p_absent=0.3, p_shared_node=0.5),
 }
@@ -51,6 +55,9 @@ def observers_for(prop, scen):
         obs.append(cluster.MasterConvergence())
     elif prop == 'C08':
         obs.append(cluster.Liveness())
+    elif prop == 'C07':
+        from oracles import detection
+        obs.append(detection.FailureDetection())
     return obs
 
 
